@@ -1,9 +1,9 @@
 #!/usr/bin/env python3
 """Regenerates the table of seeded changes in DESIGN.md (between the seeded-table markers) from seeded/*/meta.json and a
-bin/selftest log (developer helper).  usage: bin/mkseededtable.py <selftest log>"""
+bin/selftest log (developer helper).  usage: bin/mkseededtable.py <selftest log> [<more logs>...]  (later logs win)"""
 import json, os, re, sys
 V = os.path.dirname(os.path.dirname(os.path.abspath(__file__)))
-log = open(sys.argv[1]).read() if len(sys.argv) > 1 else ""
+log = "\n".join(open(a).read() for a in sys.argv[1:])
 res = {}
 for m in re.finditer(r"^SELFTEST (\S+): (detected by \S+ \((\d+) fingerprints\)\s*(.*)|MISSED.*|patch does not apply)$", log, re.M):
     res[m.group(1)] = (m.group(2), m.group(4) or "")
